@@ -40,8 +40,8 @@ var handlers = map[string]h2{
 	"m.label_values": promql.ProcessGetLabelValuesRequest,           // GET /promql/api/v1/label/{labelName}/values
 	"m.series":       promql.ProcessGetSeriesByLabelRequest,         // GET /promql/api/v1/series
 	"m.metric_names": promql.ProcessGetAllMetricNamesRequest,        // POST /metrics-explorer/api/v1/metric_names
-	"list.indices": pipesearch.ListIndicesHandler,      // GET /api/listIndices
-	"list.columns": pipesearch.ListColumnNamesHandler,  // POST /api/listColumnNames
+	"list.indices":   pipesearch.ListIndicesHandler,                 // GET /api/listIndices
+	"list.columns":   pipesearch.ListColumnNamesHandler,             // POST /api/listColumnNames
 }
 
 func workerOrgs() []int64 {
